@@ -36,12 +36,23 @@ OBLIGATIONS = {
              'confirm': versionset.o8_2_confirm},
     'O12.1': {'engine': 'B', 'title': 'log writer fragmentation geometry for every start offset and record length', 'run': logs.o12_1_writer,
               'confirm': logs.o12_1_confirm, 'witness_ok': logs.o12_1_witness_ok},
+    'O12.3': {'engine': 'B', 'title': 'log reader returns exactly the complete records, in order, for a file cut at any byte (incl. not cut)', 'run': logs.o12_3_reader,
+              'confirm': logs.o12_3_confirm, 'witness_ok': logs.o12_3_witness_ok},
+    'O12.4': {'engine': 'B', 'title': 'a record abandoned between two fragments is dropped, the records of the reopened writer are returned', 'run': logs.o12_4_reader,
+              'confirm': logs.o12_3_confirm},
+    'O15.5': {'engine': 'B', 'title': 'a fragment with a bad checksum costs exactly its own record; all other records are returned intact', 'run': logs.o15_5_reader,
+              'confirm': logs.o12_3_confirm},
+    'O16.2': {'engine': 'B', 'title': 'records appended after a torn final write are returned', 'run': logs.o16_2_torn_append,
+              'confirm': logs.o12_3_confirm},
 }
 
 PROPERTIES = {
     'C07': {'obligations': ['O7.1', 'O7.2', 'O7.3', 'O7.4a', 'O7.4b', 'O7.4c']},
     'C01': {'obligations': ['O1.3', 'O1.4', 'O1.6', 'O1.7']},
     'C08': {'obligations': ['O8.2']},
-    'C12': {'obligations': ['O12.1']},
+    'C12': {'obligations': ['O12.1', 'O12.3', 'O12.4']},
+    'C02': {'obligations': ['O12.3']},
+    'C15': {'obligations': ['O15.5']},
+    'C16': {'obligations': ['O12.3', 'O16.2']},
     'C10': {'obligations': ['O7.1', 'O1.3', 'O10.3']},
 }
